@@ -24,6 +24,7 @@ CONSTANTS D,            \* directory ids
           FIX_READD,    \* F15: a removed directory is re-added at once when it exists again
           FIX_STALE,    \* F13: a goroutine whose watcher is no longer current does nothing
           FIX_RENAMEDIR, \* F14: a Rename event for a tracked directory is treated like its removal
+          FIX_RETRY,     \* F19: a scan that ran out of descriptors is repeated by the next query
           FIX_SCANWATCHED, \* F18: a rescan leaves out directories that could not be watched because they did not exist
           RECORD        \* TRUE: keep the history of actions (for behaviour emission); FALSE: hist stays empty
 
@@ -45,7 +46,8 @@ VARIABLES
   gor,                    \* watcher id -> [pc, ev]: the goroutine started with that watcher (and that dirErrors map)
   errs,                   \* dirErrors map id -> d -> "none" | "monitor" | "removed" | "create"
   idx,                    \* the index: d -> content of the Spec name as last scanned (0 none)
-  short,                  \* descriptor shortage
+  short,                  \* descriptors: [w: none left for a new watcher (inotify, epoll, pipe), t: none left at all - a scan
+                          \* cannot open anything -, r: the last scan ran out of descriptors and is to be repeated (F19), n: budget]
   fsops, confs,           \* budgets used
   obs,                    \* result of the last query
   hist                    \* recorded actions (only when RECORD)
@@ -54,6 +56,7 @@ vars == <<exists, gen, files, away, cur, auto, cdirs, wstate, tracked, watches, 
 fsvars == <<exists, gen, files, away>>
 
 EmptyFiles == [n \in Names |-> 0]
+NoIdx == [d \in D |-> 0]
 Fresh(cd) == [d \in D |-> IF d \in cd /\ exists[d] THEN files[d][SpecName] ELSE 0]
 \* what a rescan indexes: with the F18 repair a configured directory that was
 \* missing when the watches were last updated is left out even if it exists by now - it is not watched, so nothing
@@ -233,9 +236,10 @@ GorHandle(w) ==
 \* second half: rescan, release the mutex
 GorScan(w) ==
   /\ gor[w].pc = "scan"
-  /\ idx' = Scan(cdirs, errs[cur])
+  /\ idx' = IF short.t THEN NoIdx ELSE Scan(cdirs, errs[cur])
+  /\ short' = [short EXCEPT !.r = short.t /\ FIX_RETRY]
   /\ gor' = [gor EXCEPT ![w] = [pc |-> IF wstate[w] = "closed" THEN "dead" ELSE "recv", ev |-> NoEv]]
-  /\ UNCHANGED <<exists, gen, files, away, cur, auto, cdirs, wstate, tracked, watches, kq, ub, infl, errs, short, fsops, confs, obs>>
+  /\ UNCHANGED <<exists, gen, files, away, cur, auto, cdirs, wstate, tracked, watches, kq, ub, infl, errs, fsops, confs, obs>>
   /\ Rec(Act("scan", "", "", 0, w, {}, FALSE))
 
 -----------------------------------------------------------------------------
@@ -245,20 +249,24 @@ GorScan(w) ==
 Query ==
   /\ ~Locked
   /\ IF auto /\ wstate[cur] = "nil"
-     THEN /\ idx' = Fresh(cdirs) /\ UNCHANGED <<tracked, watches, errs>>     \* no watcher: every query rescans
+     THEN /\ idx' = IF short.t THEN NoIdx ELSE Fresh(cdirs)                 \* no watcher: every query rescans
+          /\ UNCHANGED <<tracked, watches, errs, short>>
      ELSE IF auto
      THEN /\ ApplyUpdate(cur, {})
-          /\ idx' = IF UpdateResult(cur, {}).changed THEN Scan(cdirs, errs'[cur]) ELSE idx
-     ELSE UNCHANGED <<tracked, watches, errs, idx>>
+          /\ LET rescan == UpdateResult(cur, {}).changed \/ short.r IN
+             /\ idx' = IF ~rescan THEN idx ELSE IF short.t THEN NoIdx ELSE Scan(cdirs, errs'[cur])
+             /\ short' = IF rescan THEN [short EXCEPT !.r = short.t /\ FIX_RETRY] ELSE short
+     ELSE UNCHANGED <<tracked, watches, errs, idx, short>>
   /\ obs' = idx'
-  /\ UNCHANGED <<exists, gen, files, away, cur, auto, cdirs, wstate, kq, ub, infl, gor, short, fsops, confs>>
+  /\ UNCHANGED <<exists, gen, files, away, cur, auto, cdirs, wstate, kq, ub, infl, gor, fsops, confs>>
   /\ Rec(Act("query", "", "", 0, 0, {}, FALSE))
 
 \* Configure(WithSpecDirs(nd), WithAutoRefresh(na)): stop, set up, start, refresh
 Configure(nd, na) ==
   /\ confs < MaxConfs /\ confs' = confs + 1 /\ cur < MaxWids /\ ~Locked
   /\ LET new == cur + 1
-         ok  == na /\ ~short                                  \* fsnotify.NewWatcher succeeds
+         \* fsnotify.NewWatcher succeeds: there are descriptors, or stop() has just closed a watcher and freed its own
+         ok  == na /\ ((~short.w /\ ~short.t) \/ wstate[cur] = "open")
          add == IF ok THEN { d \in nd : exists[d] } ELSE {}    \* first update(): every existing directory is added
      IN
      /\ cur' = new /\ auto' = na /\ cdirs' = nd
@@ -272,13 +280,18 @@ Configure(nd, na) ==
                                                    ELSE IF d \in add THEN "none" ELSE "monitor"]]
      \* the old goroutine: blocked in receive -> sees the closed channel later; holding an event -> goes on to the mutex
      /\ gor' = [gor EXCEPT ![new] = IF ok THEN [pc |-> "recv", ev |-> NoEv] ELSE [pc |-> "dead", ev |-> NoEv]]
-     /\ idx' = [d \in D |-> IF d \in nd /\ exists[d] THEN files[d][SpecName] ELSE 0]
-  /\ UNCHANGED <<exists, gen, files, away, short, fsops, obs>>
+     /\ idx' = IF short.t THEN NoIdx ELSE [d \in D |-> IF d \in nd /\ exists[d] THEN files[d][SpecName] ELSE 0]
+     /\ short' = [short EXCEPT !.r = short.t /\ FIX_RETRY]
+  /\ UNCHANGED <<exists, gen, files, away, fsops, obs>>
   /\ Rec(Act("configure", "", "", 0, cur + 1, nd, na))
 
-Shortage == /\ WithShortage /\ short' = ~short
+Shortage == /\ WithShortage /\ ~short.t /\ short' = [short EXCEPT !.w = ~@]
             /\ UNCHANGED <<exists, gen, files, away, cur, auto, cdirs, wstate, tracked, watches, kq, ub, infl, gor, errs, idx, fsops, confs, obs>>
-            /\ Rec(Act("shortage", "", "", 0, 0, {}, ~short))
+            /\ Rec(Act("shortage", "", "", 0, 0, {}, ~short.w))
+\* no descriptor at all, for a while (at most once per behaviour: it begins and it ends)
+Exhaust  == /\ WithShortage /\ short.n < 2 /\ short' = [short EXCEPT !.t = ~@, !.n = @ + 1]
+            /\ UNCHANGED <<exists, gen, files, away, cur, auto, cdirs, wstate, tracked, watches, kq, ub, infl, gor, errs, idx, fsops, confs, obs>>
+            /\ Rec(Act("exhaust", "", "", 0, 0, {}, ~short.t))
 
 FsOp == \/ \E d \in D, n \in Names, c \in 1..2 : CreateWrite(d, n, c) \/ Rewrite(d, n, c)
         \/ \E d \in D : RenameWithin(d) \/ MoveOut(d) \/ Rmdir(d) \/ Mkdir(d) \/ RenameDirAway(d)
@@ -294,7 +307,7 @@ Init ==
   /\ kq = [w \in Wids |-> <<>>] /\ ub = [w \in Wids |-> <<>>] /\ infl = [w \in Wids |-> NoEv]
   /\ gor = [w \in Wids |-> IF w = 1 THEN [pc |-> "recv", ev |-> NoEv] ELSE [pc |-> "none", ev |-> NoEv]]
   /\ errs = [e \in Wids |-> [d \in D |-> IF e = 1 /\ d \in cdirs /\ ~exists[d] THEN "monitor" ELSE "none"]]
-  /\ idx = [d \in D |-> 0] /\ short = FALSE /\ fsops = 0 /\ confs = 0
+  /\ idx = [d \in D |-> 0] /\ short = [w |-> FALSE, t |-> FALSE, r |-> FALSE, n |-> 0] /\ fsops = 0 /\ confs = 0
   /\ obs = [d \in D |-> 0]
   /\ hist = IF RECORD THEN <<[a |-> "init", d |-> "", n |-> "", c |-> 0, w |-> 1, nd |-> cdirs, na |-> TRUE, ex |-> { d \in D : exists[d] }]>> ELSE <<>>
 
@@ -302,7 +315,7 @@ Next == \/ FsOp
         \/ \E w \in Wids : ReaderRead(w) \/ ReaderFetch(w) \/ GorRecv(w) \/ GorExit(w) \/ GorHandle(w) \/ GorScan(w)
         \/ Query
         \/ \E nd \in DirOptions, na \in BOOLEAN : Configure(nd, na)
-        \/ Shortage
+        \/ Shortage \/ Exhaust
 
 Fair == /\ \A w \in Wids : WF_vars(ReaderRead(w)) /\ WF_vars(ReaderFetch(w)) /\ WF_vars(GorRecv(w)) /\ WF_vars(GorExit(w)) /\ WF_vars(GorHandle(w)) /\ WF_vars(GorScan(w))
         /\ WF_vars(Query)
@@ -313,10 +326,11 @@ Spec == Init /\ [][Next]_vars /\ Fair
 
 \* C11: in auto mode, once the changes (and reconfigurations) have ceased, queries return
 \* what a fresh cache on the final directories returns
-Converges == <>[](auto => obs = Fresh(cdirs))
+\* (while no descriptor at all is left nothing can be read)
+Converges == <>[]((auto /\ ~short.t) => obs = Fresh(cdirs))
 \* ... and the same files/directories in error: a configured directory has an error entry iff it does not exist
 \* (no shortage at the end)
-ErrConverges == <>[]((auto /\ ~short /\ wstate[cur] = "open") => \A d \in cdirs : (errs[cur][d] = "none") <=> exists[d])
+ErrConverges == <>[]((auto /\ ~short.w /\ ~short.t /\ wstate[cur] = "open") => \A d \in cdirs : (errs[cur][d] = "none") <=> exists[d])
 
 \* C20: watchers and goroutines do not accumulate
 Live == { w \in Wids : gor[w].pc \in {"recv", "have", "scan"} }
@@ -326,7 +340,7 @@ Bounded == /\ Cardinality(OpenW) <= 1
 \* every stale goroutine is on its way out; eventually exactly the current one (or none) is left
 Settles == <>[](Live \subseteq {cur} /\ (auto /\ wstate[cur] = "open" => cur \in Live))
 \* right after Configure the index is that of a fresh cache; tracked covers exactly the final directories
-ConfigureFresh == [][cur' # cur => (idx' = [d \in D |-> IF d \in cdirs' /\ exists[d] THEN files[d][SpecName] ELSE 0]
+ConfigureFresh == [][(cur' # cur /\ ~short.t) => (idx' = [d \in D |-> IF d \in cdirs' /\ exists[d] THEN files[d][SpecName] ELSE 0]
                                     /\ \A d \in D : (tracked'[d] # "no") <=> (auto' /\ d \in cdirs'))]_vars
 \* kernel watches exist only for the current watcher and only on configured directories
 WatchesOK == \A w \in Wids, d \in D : (watches[w][d] # 0 /\ wstate[w] = "open") => (w = cur /\ d \in cdirs)
